@@ -43,6 +43,7 @@ def balance_writes(body, fa):
 def run(prog, tier, extra=None):
     res = Result("C19", "other")
     R1 = res.rule("C19.co-mutation", "a body that changes Wallet.unspent_slips changes available_balance in the matching direction and vice versa", floor=7)
+    R3 = res.rule("C19.per-iteration", "loops that spend slips subtract the amount and queue the removal together in each iteration", floor=1)
     R2 = res.rule("C19.private", "available_balance is written only inside impl Wallet (the field is private)", floor=1)
     fa = FieldAnalysis(prog)
     for b in prog.all_bodies():
@@ -86,6 +87,53 @@ def run(prog, tier, extra=None):
             res.instance(R2)
             if "consensus::wallet::Wallet::" not in b.path and "wallet::{impl" not in b.path:
                 res.add(Finding(R2, "C19.private|%s" % b.path, "%s writes Wallet.available_balance from outside impl Wallet" % name, b.loc(bw[0][0])))
+    # R3: deferred removals: a loop that subtracts a slip's amount and queues its key for removal from unspent_slips
+    # does both or neither in every iteration
+    from ..expr import call_name
+    from .c09 import recv_local
+    for b in prog.all_bodies():
+        if "::tests::" in b.path or "/test/" in b.file or "consensus::wallet::Wallet::" not in b.path:
+            continue
+        subs = {bb for bb, d in balance_writes(b, fa) if d == "sub"}
+        if not subs:
+            continue
+        has_remove = any(s[3] == "remove" for s in fa.sites(b, WALLET, "unspent_slips"))
+        if not has_remove:
+            continue
+        pushes = {}
+        for bb, t in b.calls():
+            if (call_name(t) or "") == "std::vec::Vec::push" and len(t["args"]) == 2:
+                k = recv_local(b, t["args"][0])
+                if k is not None and "[u8; 59]" in b.ty(k)["s"]:
+                    pushes.setdefault(k, set()).add(bb)
+        for k, P in pushes.items():
+            both = P | subs
+            # innermost loop header containing all of them
+            heads = [h for h in range(b.nblocks) if all(b.dominates(h, x) for x in both) and all(h in b.reachable(x) for x in both)]
+            if not heads:
+                continue
+            H = max(heads, key=lambda h: bin(b.dominators()[h]).count("1"))
+            exits = set(b.return_blocks()) | {H}
+            res.instance(R3)
+            name = b.path.split("::", 4)[-1]
+            bad = None
+            for p in P:
+                if any(b.dominates(s, p) and b.dominates(H, s) for s in subs):
+                    continue
+                nxt = b.term(p).get("t")
+                if nxt is not None and b.find_path(nxt, exits, blocked=subs):
+                    bad = (p, "queues a slip for removal from unspent_slips without subtracting its amount from available_balance in the same iteration")
+            for s_ in subs:
+                if any(b.dominates(p, s_) and b.dominates(H, p) for p in P):
+                    continue
+                succs = b.succ(s_)
+                if any(b.find_path(n, exits, blocked=P) for n in succs):
+                    bad = bad or (s_, "subtracts a slip's amount from available_balance without queueing the slip for removal from unspent_slips in the same iteration")
+            if bad:
+                res.add(Finding(R3, "C19.per-iteration|%s" % b.path, "%s %s: balance and unspent list drift apart for that slip" % (name, bad[1]), b.loc(bad[0])))
+            else:
+                res.sample({"rule": R3, "body": name, "queue": b.name_of(k) or "_%d" % k, "verdict": "each iteration subtracts and queues together, or does neither"})
+
     adt = prog.adts.get("saito_core::core::consensus::wallet::Wallet")
     if adt is None:
         raise LookupError("Wallet ADT not found")
